@@ -16,7 +16,8 @@ from harness import rt
 META = dict(
     bounds=dict(
         quick="files produced by independent layout-table writers (specs/layouts.py) for sdf, pdb, gro, mol2, xyz, extxyz, "
-              "poscar (direct/cartesian, selective dynamics, scale factor), chgcar, locpot, cube, charmm crd, fcidump; every "
+              "poscar (direct/cartesian, selective dynamics, scale factor), chgcar, locpot, cube, charmm crd, fcidump, wfn (contracted shells, "
+              "function types in standard / rotated / alphabetical / swapped order); every "
               "numeric field symbolic (token of the printed width; one field per record may fill its column), symbolic "
               "bond partners / CONECT serials in their legal range; sizes 1-3 atoms plus boundary sizes; optional "
               "sections absent/present (gro velocities, triclinic box, time; pdb CONECT; cube ragged last lines)",
@@ -461,6 +462,65 @@ def h_fcidump(ctx, n=2):
         _cmp(ctx, "nelec", d.nelec, 2, cls)
 
 
+# ------------------------------------------------------------------------------------------ WFN
+WFN_ORDERS = {
+    "standard-p": [2, 3, 4], "rotated-p": [3, 4, 2], "gaussian-d": [5, 6, 7, 8, 9, 10], "alphabetical-d": [5, 8, 9, 6, 10, 7],
+    "swapped-d": [6, 5, 7, 8, 9, 10],
+}
+
+
+def h_wfn(ctx, order="standard-p", nprim=2, twin=False):
+    """WFN reader: every MO coefficient stays attached to its primitive (centre, exponent, Cartesian function)."""
+    import iodata.api as api
+    from specs import basisfun as BF
+    mods = rt._fmt_modules("wfn")
+    with stubbed(*mods):
+        types = WFN_ORDERS[order]
+        exps_s = [5.033151, 1.169596][:nprim]
+        exps_x = [12.5, 0.3713, 2.9][:nprim]
+        prims = []
+        for e in exps_s:                       # an s shell on centre 1 first
+            prims.append((1, 1, e))
+        for t in types:                        # then one contracted shell on centre 2: per function type all primitives
+            for e in exps_x:
+                prims.append((2, t, e))
+        nmo = 2
+        mos = []
+        for i in range(nmo):
+            co = [ctx.real(f"c{i}_{k}", lo=-9, hi=9, default=0.1 * (k + 1) * (1 if (k + i) % 2 else -1)) for k in range(len(prims))]
+            mos.append((2.0, ctx.real(f"e{i}", lo=-90, hi=90, default=-1.0 + i), co))
+        atoms = [(8, 0.0, 0.0, 0.2), (1, 0.0, 1.4, -0.9)]
+        text = L.write_wfn(dict(title="wfn layout", atoms=atoms, prims=prims, mos=mos, energy=-75.5, virial=2.0001))
+        path = ctx.tmp_path("m.wfn")
+        ctx.write_text(path, text)
+        d, err = _load(ctx, api, path)
+        cls = f"wfn,{order},nprim={nprim}"
+        ctx.oblige("well-formed-file-loads", err is None, cls=cls, detail=f"{err} / {getattr(err, '__cause__', None)!r}")
+        if err is not None:
+            return
+        funcs = BF.basis_functions(BF.shells_of(d.obasis), d.obasis.conventions, normalized_prims=False)
+        ctx.oblige("orbital-count", d.mo.coeffs.shape[1] == nmo, cls=cls)
+        for i in range(nmo):
+            got = BF.combine(list(d.mo.coeffs[:, i]), funcs)
+            want = {}
+            for k, (c, t, e) in enumerate(prims):
+                pw = L.WFN_TYPES[t]
+                coef = mos[i][2][k] * (2.0 if twin and k == 1 else 1.0)
+                BF.add_to(want, (c - 1, BF.akey(e), "c", sum(pw), pw), coef)
+            parts = []
+            ok = True
+            for key in sorted(set(got) | set(want), key=repr):
+                r = ctx.approx(got.get(key, 0.0), want.get(key, 0.0), 1e-6, atol=1e-9)
+                if r is False:
+                    ok = False
+                    break
+                if r is not True:
+                    parts.append(r)
+            ctx.oblige("coefficient-stays-with-its-primitive", (And(*parts) if parts else True) if ok else False, cls=cls,
+                       detail=f"orbital {i}")
+            _cmp(ctx, "orbital-energy", d.mo.energies[i], mos[i][1], cls, tol=1e-6)
+
+
 def jobs(tier):
     M = "harness.c03"
     out = []
@@ -488,6 +548,10 @@ def jobs(tier):
     for shape in ((1, 1, 1), (1, 2, 7), (2, 1, 6)):
         out.append(job("C03", f"cube[{shape}]", M, "h_cube", dict(shape=shape), max_validate=3))
     out.append(job("C03", "crd", M, "h_crd", dict(natom=2), max_validate=3))
+    for order in WFN_ORDERS:
+        for nprim in (1, 2):
+            out.append(job("C03", f"wfn[{order},nprim={nprim}]", M, "h_wfn", dict(order=order, nprim=nprim), max_validate=2))
+    out.append(job("C03", "wfn[twin]", M, "h_wfn", dict(order="standard-p", nprim=1, twin=True), expect="cex", max_validate=0))
     for n in (1, 2):
         out.append(job("C03", f"fcidump[n={n}]", M, "h_fcidump", dict(n=n), max_validate=3))
     return out
